@@ -30,8 +30,8 @@ def run(ctx):
                           'filter stack differs from Options.tla: %s' % msg)
     ctx.cov['option_states'] = len(opts)
     # ---- programs x option states ------------------------------------------
-    progs = sqlprog.programs(ctx, 250 if quick else 6000, PID + '_progs', seed=ctx.seed * 5 + 1)
-    progs += sqlprog.programs(ctx, 100 if quick else 2000, PID + '_progs_small', fuel=10, maxout=40, seed=ctx.seed * 5 + 2)
+    progs = sqlprog.programs(ctx, 250 if quick else 1500, PID + '_progs', seed=ctx.seed * 5 + 1)
+    progs += sqlprog.programs(ctx, 100 if quick else 600, PID + '_progs_small', fuel=10, maxout=40, seed=ctx.seed * 5 + 2)
     traces, meta = [], []
     unspellable = 0
     for p in progs:
